@@ -98,7 +98,9 @@ func isPerInstance(t types.Type) (string, bool) {
 	return "", false
 }
 
-var nonThreadSafe = map[string]bool{"math/rand.Rand": true, "bufio.Reader": true, "bufio.Writer": true, "bufio.Scanner": true, "strings.Builder": true, "bytes.Buffer": true, "text/template.Template": false}
+var nonThreadSafe = map[string]bool{"math/rand.Rand": true, "bufio.Reader": true, "bufio.Writer": true, "bufio.Scanner": true, "strings.Builder": true, "bytes.Buffer": true, "text/template.Template": false,
+	// antchfx/xpath v1.2: (*Expr).Evaluate / Select write into the compiled query tree (groupQuery.Clone does not clone its input)
+	"github.com/antchfx/xpath.Expr": true}
 
 func c11Writes(c *Ctx, reach map[*ssa.Function]bool) []sharedWrite {
 	P := c.P
